@@ -224,6 +224,12 @@ func runSign(c SCase) (n cnt, err error) {
 	if err != nil {
 		return n, fmt.Errorf("Sign: %v", err)
 	}
+	if c.Fill%2 == 1 {
+		if got, err := obj.Verify(vk); err != nil || !bytes.Equal(got, payload) {
+			return n, fmt.Errorf("%s: Verify of the object just created: %d bytes, err %v", c.Alg, len(got), err)
+		}
+		n.evals++
+	}
 	var ser string
 	if c.JSON {
 		ser = obj.FullSerialize()
@@ -391,13 +397,33 @@ func runEncrypt(c ECase) (n cnt, err error) {
 	if err != nil {
 		return n, fmt.Errorf("Encrypt: %v", err)
 	}
+	what := fmt.Sprintf("%s/%s zip=%v %s, %d-byte payload", c.Alg, c.Enc, c.Zip, serName(c.JSON), c.Size)
+	serialize := func(o *jose.JsonWebEncryption) (string, error) {
+		if c.JSON {
+			return o.FullSerialize(), nil
+		}
+		return o.CompactSerialize()
+	}
 	var ser string
-	if c.JSON {
-		ser = obj.FullSerialize()
-	} else if ser, err = obj.CompactSerialize(); err != nil {
+	if c.Fill%2 == 1 {
+		// the sender checks its own object before sending it: decrypting must not change the object
+		before, e := serialize(obj)
+		if e != nil {
+			return n, fmt.Errorf("CompactSerialize: %v", e)
+		}
+		got, e := obj.Decrypt(dk)
+		n.evals++
+		if e != nil || !bytes.Equal(got, payload) {
+			return n, fmt.Errorf("%s: Decrypt of the object just created: %d bytes, err %v", what, len(got), e)
+		}
+		after, _ := serialize(obj)
+		if before != after {
+			return n, fmt.Errorf("%s: Decrypt changed the object: serialisation differs before/after decrypting it", what)
+		}
+	}
+	if ser, err = serialize(obj); err != nil {
 		return n, fmt.Errorf("CompactSerialize: %v", err)
 	}
-	what := fmt.Sprintf("%s/%s zip=%v %s, %d-byte payload", c.Alg, c.Enc, c.Zip, serName(c.JSON), c.Size)
 	parsed, err := jose.ParseEncrypted(ser)
 	if err != nil {
 		return n, fmt.Errorf("%s: ParseEncrypted of own serialisation: %v", what, err)
@@ -410,6 +436,18 @@ func runEncrypt(c ECase) (n cnt, err error) {
 	if !bytes.Equal(got, payload) {
 		return n, fmt.Errorf("%s: decrypted %d bytes, encrypted %d", what, len(got), len(payload))
 	}
+	// decrypting is repeatable and leaves the parsed object intact
+	if again, err := parsed.Decrypt(dk); err != nil || !bytes.Equal(again, payload) {
+		return n, fmt.Errorf("%s: second Decrypt of the same parsed object: %d bytes, err %v", what, len(again), err)
+	}
+	if reser, err := serialize(parsed); err == nil {
+		if p2, err := jose.ParseEncrypted(reser); err != nil {
+			return n, fmt.Errorf("%s: re-serialised object does not parse: %v", what, err)
+		} else if out, err := p2.Decrypt(dk); err != nil || !bytes.Equal(out, payload) {
+			return n, fmt.Errorf("%s: object re-serialised after a Decrypt no longer decrypts: %d bytes, err %v", what, len(out), err)
+		}
+	}
+	n.evals += 2
 	if c.JSON && c.AAD >= 0 && !bytes.Equal(parsed.GetAuthData(), aad) {
 		return n, fmt.Errorf("%s: GetAuthData returns %d bytes, want the %d-byte AAD", what, len(parsed.GetAuthData()), len(aad))
 	}
